@@ -219,7 +219,8 @@ def run(chk, ctx):
     sub = repo.method(rel, "CheckpointSchedule", "__init_subclass__")
     chk.functions.add(f"{rel[:-3]}.CheckpointSchedule.is_running")
     chk.functions.add(f"{rel[:-3]}.CheckpointSchedule.__init_subclass__")
-    cache_attrs = attr_stores(sub)
+    fw = find_cache_wrapper(repo)
+    cache_attrs = attr_stores(fw[2]) if fw else attr_stores(sub)
     tested = {n.args[1].value for n in ast.walk(isr) if isinstance(n, ast.Call) and isinstance(n.func, ast.Name)
               and n.func.id == "hasattr" and len(n.args) == 2 and isinstance(n.args[1], ast.Constant)}
     cons = f"{rel[:-3]}.CheckpointSchedule.is_running"
@@ -249,16 +250,14 @@ def run(chk, ctx):
     chk.decide("C09.STOP", f"{rel[:-3]}.CheckpointSchedule.__next__", True if ok else None,
                f"__next__ body: {src}", rel=rel, node=nx, nontrivial=False)
     # the wrapper returns the cached generator: `if not hasattr(self, A): self.A = cls_iter(self); return self.A`
-    wr = [n for n in ast.walk(sub) if isinstance(n, ast.FunctionDef) and n.name == "_iterator"]
     cons = f"{rel[:-3]}.CheckpointSchedule.__init_subclass__#wrapper"
-    if len(wr) != 1:
+    if fw is None:
         chk.decide("C09.STOP", cons, None, "generator-caching wrapper not found", rel=rel, node=sub)
     else:
-        w = wr[0]
+        w = fw[2]
         st_attrs = attr_stores(w)
         rets = [r for r in ast.walk(w) if isinstance(r, ast.Return)]
-        tests = {n.args[1].value for n in ast.walk(w) if isinstance(n, ast.Call) and isinstance(n.func, ast.Name)
-                 and n.func.id == "hasattr" and len(n.args) == 2 and isinstance(n.args[1], ast.Constant)}
+        tests = wrapper_tests(w)
         ret_attr = {r.value.attr for r in rets if isinstance(r.value, ast.Attribute) and isinstance(r.value.value, ast.Name)
                     and r.value.value.id == "self"}
         ok = len(st_attrs) == 1 and st_attrs == tests == ret_attr
